@@ -214,6 +214,7 @@ func c19Scale(c *engine.Ctx) {
 				defer func() { c19Probe = nil }()
 				var n int64
 				run := func(seq []c19Op) {
+					t.Step(nil)
 					var cont ap.NaturalLanguageValues
 					var m []c19Pair
 					hist := fmt.Sprintf("%d distinct tags (%s)", k, how)
@@ -373,6 +374,7 @@ func c19ByteClasses(c *engine.Ctx) {
 			}, func(t *engine.T) {
 				var n int64
 				run := func(seq []c19Op) {
+					t.Step(nil)
 					cont := st.mk()
 					m := c19Model(cont)
 					hist := "start " + st.name
@@ -410,9 +412,51 @@ func c19ByteClasses(c *engine.Ctx) {
 	}
 }
 
+// c19NearTags: the histories of depth <= 3 over tags that agree in their length and in their first eight bytes (sr-Latn-RS / sr-Latn-ME,
+// zh-Hant-TW / zh-Hant-HK), in a prefix (sr-Latn) or in nothing: a tag is the whole string, not a fixed-size key made from it.
+func c19NearTags(c *engine.Ctx) {
+	tags := []string{"sr-Latn-RS", "sr-Latn-ME", "sr-Latn", "zh-Hant-TW", "zh-Hant-HK", "-"}
+	savedTags := c19Tags
+	c19Tags = tags
+	ops := c19Ops()
+	c19Tags = savedTags
+	for _, st := range c19Starts[:2] {
+		for _, o1 := range ops {
+			st, o1 := st, o1
+			c.Do("C19|ops", func() string {
+				return fmt.Sprintf("start %s; %s; then every continuation up to depth 3 (tags sharing length and first eight bytes)", st.name, o1)
+			}, func(t *engine.T) {
+				c19Probe = tags
+				defer func() { c19Probe = nil }()
+				var n int64
+				run := func(seq []c19Op) {
+					t.Step(nil)
+					cont := st.mk()
+					m := c19Model(cont)
+					hist := "start " + st.name
+					for _, op := range seq {
+						hist += "; " + op.String()
+						m = c19Step(t, hist, &cont, m, op)
+					}
+					n++
+				}
+				run([]c19Op{o1})
+				for _, o2 := range ops {
+					run([]c19Op{o1, o2})
+					for _, o3 := range ops {
+						run([]c19Op{o1, o2, o3})
+					}
+				}
+				t.AddEvals(n-1, n-1)
+			})
+		}
+	}
+}
+
 func c19Run(c *engine.Ctx) {
 	c19Scale(c)
 	c19ByteClasses(c)
+	c19NearTags(c)
 	ops := c19Ops()
 	depth := 4
 	if !c.Quick() {
@@ -428,6 +472,7 @@ func c19Run(c *engine.Ctx) {
 					var n int64
 					var rec func(suffix []c19Op)
 					run := func(suffix []c19Op) {
+						t.Step(nil)
 						for _, aliasing := range []bool{false, true} {
 							c19Shared = nil
 							hist := "start " + st.name
